@@ -189,7 +189,7 @@ def fold_programs(rng, tier):
         out.append(mk("f%d" % n, family, site, ctx, main, in_model))
         n += 1
 
-    nfold = 2500 if tier == "quick" else 60000
+    nfold = 2500 if tier == "quick" else 30000
     for _ in range(nfold):
         e, m = fold_expr(rng)
         ctxname, ctx = rng.choice(CONTEXTS)
@@ -210,7 +210,7 @@ def fold_programs(rng, tier):
                     continue                     # may yield an unspecified value the interpreter cannot mask
                 main = t.replace("K2", "\x00").replace("K", k).replace("\x00", k2)
                 add("const-test", tname, kname, main, kname != "flo")
-    nseq = 1200 if tier == "quick" else 30000
+    nseq = 1200 if tier == "quick" else 15000
     for _ in range(nseq):
         k = rng.randrange(1, 6)
         stmts = [rng.choice(STATEMENTS) for _ in range(k)]
@@ -227,7 +227,7 @@ def simplify_programs(tier, seed):
     rng = random.Random(seed * 9176 + 9)
     progs = fold_programs(rng, tier)
     c3 = c03.make_programs(tier, seed + 77, errors=0.03, consts=0.3,
-                           n_random=(3000 if tier == "quick" else 100000), pattern_variants=1)
+                           n_random=(3000 if tier == "quick" else 50000), pattern_variants=1)
     for p in c3:
         p.id = "c" + p.id
     return progs + c3
@@ -304,7 +304,7 @@ def check_simplify(rep, tier, seed):
         mode = "crash" if "<crash>" in (ta, tb) else "output-differs"
         sig = sig_of(p)
         sig.update(mode=mode, wrong=wrong)
-        wit = {"program": p.model_text(), "plain": ta[:800], "nosimp": tb[:800],
+        wit = {"program": p.model_text(), "tops": p.tops, "main": p.main, "plain": ta[:800], "nosimp": tb[:800],
                "interpreter": (M.show_obs(("list", p.exp[1], None)) + " " + M.show_obs(p.exp[2])) if p.exp else None,
                "detail": a.detail if a.status == "crash" else (b.detail if b.status == "crash" else None)}
         rep.violation(sig, wit)
@@ -356,8 +356,18 @@ def check_cll(rep, tier, seed):
     rep.builds.update(["plain", "cll"])
     for name, mod in numeric_sources(rep):
         rng = random.Random(seed * 7919 + 4)              # the same stream the property's own check uses
-        n = 30000 if tier == "quick" else 300000
-        cs = list(mod.case_stream(rng, "quick" if tier == "quick" else "thorough", n))
+        n = 20000 if tier == "quick" else 150000
+        if tier == "quick":
+            cs = list(mod.case_stream(rng, "quick", n))
+        else:
+            # the property's complete thorough stream (random mix + lattice cross product), strided down to a bounded
+            # number of cases beyond the first n so that two builds fit the time budget
+            cs, extra = [], []
+            for i, c in enumerate(mod.case_stream(rng, "thorough", n)):
+                (cs if i < n else extra).append(c)
+            stride = max(1, len(extra) // 250000)
+            cs += extra[::stride]
+            rep.extra["cll_thorough_stride_" + name] = stride
         header = getattr(mod, "HEADER", "")
         # stage 1: a probe of 2000 cases in small files with a short timeout; a build that is broken outright
         # (many differences / hangs) is reported from the probe alone instead of multiplying per-file timeouts
@@ -400,7 +410,8 @@ def check_cll(rep, tier, seed):
             wrong = "cll" if (wb and not wa) else "plain" if (wa and not wb) else "both" if (wa and wb) else "unknown"
             sig = {"part": "cll", "source": name, "op": c.get("op"), "classes": "/".join(str(x) for x in s[1:]),
                    "mode": "crash" if "<crash>" in (ta, tb) else "output-differs", "wrong": wrong}
-            rep.violation(sig, {"form": c["form"], "expected": repr(c.get("expect")), "plain": ta[:600], "cll": tb[:600]})
+            rep.violation(sig, {"form": c["form"], "imports": mod.IMPORTS, "header": header,
+                                "expected": repr(c.get("expect")), "plain": ta[:600], "cll": tb[:600]})
         rep.extra["cll_cases_" + name] = len(cs)
         rep.extra["cll_differences_" + name] = ndiff
         for c in cs[:3]:
@@ -427,3 +438,35 @@ def check(rep, tier, seed):
                 "classes); only build-vs-build differences are violations")
     rep.assumptions = ["both builds of one tree run the same Scheme libraries, so equal programs must print equal text",
                        "the C03 interpreter / Python int arithmetic decide only which side of a difference is wrong"]
+
+
+def replay(path):
+    """./check C09 --replay <file>: re-run the witnesses on both builds of the pair and print the two outputs."""
+    import json
+    d = json.load(open(path))
+    part = d.get("signature", {}).get("part")
+    other = "nosimp" if part == "simplify" else "cll"
+    plain, ob = B.ensure("plain"), B.ensure(other)
+    bad = 0
+    for i, w in enumerate(d.get("witnesses", [])):
+        if part == "simplify":
+            p = c03.Prog("w%d" % i, ("replay",), w.get("tops", []), w["main"], "replay")
+            imports, header, case = c03.IMPORTS, HEADER, (p.id, p.case_text())
+            print("program:", p.model_text())
+        else:
+            imports, header = w["imports"], w.get("header", "")
+            case = ("w%d" % i, w["form"].replace(w["form"].split()[1], "w%d" % i, 1))
+            print("form   :", w["form"])
+        outs = []
+        for b in (plain, ob):
+            res, _ = C.run_batches(b, imports, header, [case], batch=1, timeout=60)
+            r = res.get(case[0])
+            outs.append(r.text.strip() if r is not None and r.status == "ok" else "<%s>" % (r.status if r else "none"))
+        print("plain  :", outs[0])
+        print("%-7s:" % other, outs[1])
+        if outs[0] != outs[1]:
+            bad += 1
+            print("=> the builds still differ")
+        else:
+            print("=> the builds agree now")
+    return 1 if bad else 0
